@@ -12,6 +12,8 @@ PROP = dict(
         "MM.C38.C38_ids_exact",
         "MM.C38.C38_ends_disjoint",
         "MM.C38.C38_bound_sharp",
+        "MM.C38.C38_ids_increasing",
+        "MM.C38.C38_connection_nodup",
     ],
     spec=True,
     rule="stress: g in {1..64} goroutines x p in {1..15000} calls of peer.Connection.NextStreamID() on one end (conc) and on both ends at once "
